@@ -598,7 +598,7 @@ def part_closers(rep, hbin, tier, seed, cov):
 
 def run(rep, tier, seed, replay):
     hbin = vlib.build_harness()
-    import c10_poltext
+    from props import c10_poltext
     if replay and c10_poltext._replay_poltext(rep, hbin, replay):
         return
     if replay:
